@@ -108,8 +108,12 @@ func qualities(t *rapid.T, label string, n int) []int {
 			q[i] = hi - (hi-lo)*i/max(1, n-1)
 		}
 	case "random":
+		high := rapid.Bool().Draw(t, label+"_high")
 		for i, v := range rapid.SliceOfN(rapid.IntRange(1, 93), n, n).Draw(t, label+"_q") {
 			q[i] = v
+			if high {
+				q[i] = 94 - v
+			}
 		}
 	default: // with_zeros
 		for i, v := range rapid.SliceOfN(rapid.IntRange(0, 93), n, n).Draw(t, label+"_q") {
@@ -120,6 +124,89 @@ func qualities(t *rapid.T, label string, n int) []int {
 		}
 	}
 	return q
+}
+
+// spread draws an integer of [lo, hi] about uniformly (rapid's own integer
+// generators favour small values far too much for lengths and positions).
+func spread(t *rapid.T, label string, lo, hi int) int {
+	n := hi - lo + 1
+	if n <= 1 {
+		return lo
+	}
+	if n <= 12 {
+		return lo + rapid.IntRange(0, n-1).Draw(t, label)
+	}
+	w := (n + 11) / 12
+	b := rapid.SampledFrom([]int{7, 2, 11, 0, 5, 9, 3, 10, 1, 6, 8, 4}).Draw(t, label+"_bucket")
+	l := lo + b*w
+	if l > hi {
+		l = hi
+	}
+	return spread(t, label, l, min(hi, l+w-1))
+}
+
+// edit applies k substitutions / insertions / deletions at spread positions and
+// returns the positions (in the final string) whose symbol was written by an edit.
+func edit(t *rapid.T, label, s string, k int, kinds string) (string, []int) {
+	b := []byte(s)
+	var touched []int
+	for i := 0; i < k; i++ {
+		kind := kinds[rapid.IntRange(0, len(kinds)-1).Draw(t, label+"_kind")]
+		sym := gen.ACGT[rapid.IntRange(0, 3).Draw(t, label+"_sym")]
+		switch {
+		case kind == 's' || (kind == 'd' && len(b) <= 1):
+			p := spread(t, label+"_pos", 0, len(b)-1)
+			if b[p] == sym {
+				sym = gen.ACGT[(rapid.IntRange(1, 3).Draw(t, label+"_other")+int(indexACGT(sym)))%4]
+			}
+			b[p] = sym
+			touched = append(touched, p)
+		case kind == 'i':
+			p := spread(t, label+"_pos", 0, len(b))
+			if rapid.Bool().Draw(t, label+"_homopolymer") && p > 0 {
+				sym = b[p-1] // lengthen a run: the place of the gap is ambiguous
+			}
+			b = append(b[:p], append([]byte{sym}, b[p:]...)...)
+			for j := range touched {
+				if touched[j] >= p {
+					touched[j]++
+				}
+			}
+			touched = append(touched, p)
+		default: // deletion
+			p := spread(t, label+"_pos", 0, len(b)-1)
+			b = append(b[:p], b[p+1:]...)
+			kept := touched[:0]
+			for _, q := range touched {
+				if q == p {
+					continue
+				}
+				if q > p {
+					q--
+				}
+				kept = append(kept, q)
+			}
+			touched = kept
+		}
+	}
+	return string(b), touched
+}
+
+func indexACGT(c byte) int {
+	for i := 0; i < 4; i++ {
+		if gen.ACGT[i] == c {
+			return i
+		}
+	}
+	return 0
+}
+
+// readLen draws a read length: mostly anywhere in 1..maxLen, sometimes at a boundary.
+func readLen(t *rapid.T, label string, maxLen int) int {
+	if rapid.IntRange(0, 5).Draw(t, label+"_boundary") == 0 {
+		return min(maxLen, rapid.SampledFrom([]int{1, 2, 3, 4, 5, 7, 8, 9, 20, 149, 150, 151, 299, 300}).Draw(t, label))
+	}
+	return spread(t, label, 1, maxLen)
 }
 
 // genPair draws one read pair with its settings (see the rule note).
@@ -139,8 +226,8 @@ func genPair(t *rapid.T, maxLen int) pairCase {
 	c.Inplace = rapid.Bool().Draw(t, "inplace")
 	c.Kind = rapid.SampledFrom(kinds).Draw(t, "kind")
 
-	la := gen.Len(t, "la", 1, maxLen, 3, 4, 5, 8, 150)
-	lb := gen.Len(t, "lb", 1, maxLen, 3, 4, 5, 8, 150)
+	la := readLen(t, "la", maxLen)
+	lb := readLen(t, "lb", maxLen)
 	s := 0 // offset of B in A coordinates
 	switch c.Kind {
 	case "left", "right", "short_overlap", "min_overlap_edge":
@@ -155,7 +242,11 @@ func genPair(t *rapid.T, maxLen int) pairCase {
 		case c.Kind == "min_overlap_edge":
 			ov = max(0, min(top, c.MinOverlap+rapid.IntRange(-1, 1).Draw(t, "overlap_delta")))
 		case top >= 1:
-			ov = gen.Len(t, "overlap", 1, top, 3, 4, 5, c.MinOverlap)
+			if rapid.IntRange(0, 7).Draw(t, "overlap_biased") == 0 {
+				ov = gen.Len(t, "overlap", 1, top, 3, 4, 5, c.MinOverlap)
+			} else {
+				ov = spread(t, "overlap", min(4, top), top)
+			}
 		}
 		if c.Kind == "right" || (c.Kind != "left" && rapid.Bool().Draw(t, "b_first")) {
 			s = -(lb - ov)
@@ -166,12 +257,12 @@ func genPair(t *rapid.T, maxLen int) pairCase {
 		if lb > la {
 			la, lb = lb, la
 		}
-		s = gen.Len(t, "offset", 0, la-lb)
+		s = spread(t, "offset", 0, la-lb)
 	case "a_in_b":
 		if la > lb {
 			la, lb = lb, la
 		}
-		s = -gen.Len(t, "offset", 0, lb-la)
+		s = -spread(t, "offset", 0, lb-la)
 	case "same_start":
 		s = 0
 	case "same_end":
@@ -192,47 +283,44 @@ func genPair(t *rapid.T, maxLen int) pairCase {
 		n := max(c.A0+la, c.B0+lb)
 		var style string
 		c.Frag, style = fragment(t, n)
+		if rapid.IntRange(0, 9).Draw(t, "frag_iupac") == 0 {
+			c.Frag = sprinkle(t, "iupac_frag", c.Frag) // both reads carry the same ambiguity code
+		}
 		c.Kind += "/" + style
 		c.A = c.Frag[c.A0 : c.A0+la]
 		c.B = c.Frag[c.B0 : c.B0+lb]
 	}
 
 	// sequencing errors and ambiguity codes
-	var editsA, editsB []gen.Edit
-	if rapid.IntRange(0, 1).Draw(t, "with_errors") == 1 {
+	var editsA, editsB []int
+	if rapid.IntRange(0, 4).Draw(t, "with_errors") < 2 {
 		kinds := rapid.SampledFrom([]string{"s", "s", "sid", "id"}).Draw(t, "error_kinds")
-		c.A, editsA = gen.Mutate(t, "err_a", c.A, rapid.SampledFrom([]int{0, 1, 1, 2, 5}).Draw(t, "nerr_a"), gen.ACGT, kinds)
-		c.B, editsB = gen.Mutate(t, "err_b", c.B, rapid.SampledFrom([]int{0, 1, 1, 2, 5}).Draw(t, "nerr_b"), gen.ACGT, kinds)
+		c.A, editsA = edit(t, "err_a", c.A, rapid.SampledFrom([]int{0, 1, 1, 2, 5}).Draw(t, "nerr_a"), kinds)
+		c.B, editsB = edit(t, "err_b", c.B, rapid.SampledFrom([]int{0, 1, 1, 2, 5}).Draw(t, "nerr_b"), kinds)
 		if len(c.A) > maxLen {
 			c.A = c.A[:maxLen]
 		}
 		if len(c.B) > maxLen {
 			c.B = c.B[:maxLen]
 		}
-		if len(c.A) == 0 {
-			c.A = "a"
-		}
-		if len(c.B) == 0 {
-			c.B = "c"
-		}
 		if kinds != "s" {
 			c.Kind += "/indels"
 		}
 	}
-	if rapid.IntRange(0, 3).Draw(t, "with_iupac") == 0 {
+	if rapid.IntRange(0, 5).Draw(t, "with_iupac") == 0 {
 		c.A = sprinkle(t, "iupac_a", c.A)
 		c.B = sprinkle(t, "iupac_b", c.B)
 	}
 	c.QA = qualities(t, "qa", len(c.A))
 	c.QB = qualities(t, "qb", len(c.B))
-	for _, e := range editsA {
-		if e.Kind != 'd' && e.Pos < len(c.QA) {
-			c.QA[e.Pos] = min(c.QA[e.Pos], rapid.IntRange(0, 15).Draw(t, "err_q"))
+	for _, p := range editsA {
+		if p < len(c.QA) {
+			c.QA[p] = min(c.QA[p], rapid.IntRange(0, 15).Draw(t, "err_q"))
 		}
 	}
-	for _, e := range editsB {
-		if e.Kind != 'd' && e.Pos < len(c.QB) {
-			c.QB[e.Pos] = min(c.QB[e.Pos], rapid.IntRange(0, 15).Draw(t, "err_q"))
+	for _, p := range editsB {
+		if p < len(c.QB) {
+			c.QB[p] = min(c.QB[p], rapid.IntRange(0, 15).Draw(t, "err_q"))
 		}
 	}
 
@@ -250,7 +338,7 @@ func sprinkle(t *rapid.T, label, s string) string {
 	b := []byte(s)
 	k := rapid.IntRange(0, 1+len(b)/20).Draw(t, label+"_n")
 	for i := 0; i < k; i++ {
-		b[rapid.IntRange(0, len(b)-1).Draw(t, label+"_pos")] = gen.IUPAC[rapid.IntRange(4, len(gen.IUPAC)-1).Draw(t, label+"_sym")]
+		b[spread(t, label+"_pos", 0, len(b)-1)] = gen.IUPAC[rapid.IntRange(4, len(gen.IUPAC)-1).Draw(t, label+"_sym")]
 	}
 	return string(b)
 }
